@@ -34,6 +34,7 @@ import Proofs.FitCoherent
 import Proofs.FitValid
 import Proofs.FitPayload
 import Proofs.FitAround
+import Proofs.FitTail
 import Proofs.JoinSuccess
 import Proofs.Placement
 import Props.C01
@@ -1665,13 +1666,16 @@ The theorems above are about the *emitted step*.  This section composes them int
 * `Kept d d' f t req` — the C11 conclusion about content, for both step kinds in one predicate;
 * `op_valid_of` — C01's `apply_valid` and the monitor theorems in one statement;
 * `EmitOK` — valid payload + `StepWF` + "no text behind the gap", proved for every step emitted for a **deletion**
-  (`delete_emitOK`), for a **closed slice of valid leaf / text nodes** (`insertInline_emitOK`) and for **every `openValid`
-  slice under `fitEndInv ≠ some false`** (`fit_emitOK_of_inv`);
-* `delete_valid`, `deleteRange_valid`, `insertInline_valid`, `replace_valid_of_inv` and the lifts through the plans of
-  `replace_range` / `replace_range_with` (`replaceRange_valid_*`, `replaceRangeWith_valid_*`);
-* `delete_total_valid`, `deleteRange_total_valid`, `insertInline_total_valid` — with the totality theorems: the operation
-  does not raise inside `replace_step`, and its `Step.apply` ends in a valid document with the content kept or in a
-  `ReplaceError`-class refusal (`failed` / `valueError`), never in an internal error.
+  (`delete_emitOK`, both step kinds); for a **closed slice of valid leaf / text nodes** (`insertInline_emitOK_partial`) and
+  for **every `openValid` slice under `fitEndInv ≠ some false`** (`fit_emitOK_of_inv_partial`) it is proved for
+  `ReplaceStep` answers, and for `ReplaceAroundStep` answers up to `AroundPayload` (the payload *with the gap content in
+  place*; `StepWF` and "no text behind the gap" are proved for them too — Proofs/FitTail.lean);
+* `delete_valid`, `deleteRange_valid` (unconditional), `insertInline_valid_partial`, `replace_valid_of_inv_partial` and the
+  lifts through the plans of `replace_range` / `replace_range_with` (`replaceRange_valid_delete`,
+  `replaceRange_valid_inline_partial`, `replaceRange_valid_of_inv_partial`, `replaceRangeWith_valid_*_partial`);
+* `delete_total_valid`, `deleteRange_total_valid`, `insertInline_total_valid_partial` — with the totality theorems: the
+  operation does not raise inside `replace_step`, and its `Step.apply` ends in a valid document with the content kept or
+  in a `ReplaceError`-class refusal (`failed` / `valueError`), never in an internal error.
 
 WHAT IS MISSING for the first sentence of C11 on these classes (`delete_applies`): that the refusal branch is empty, i.e.
 `S.apply st doc = .ok _` for the emitted step.  `delete_total` / `insertInline_total` give `replaceStep … = .ok r` only.
@@ -1961,5 +1965,211 @@ theorem replaceRange_valid_delete (S : Schema) (hdet : detB S = true) (hfill : S
       rw [htg]
       exact hst
   exact deleteRange_valid S hdet hfill hleaf doc doc' f t hv hattrs hft st hds ha
+
+/-- the residual hypothesis of the `_partial` theorems below: *if* the emitted step is a replace-around step, the
+    slice with the gap content in place is a valid payload (vacuous for a `ReplaceStep`; proved for deletions:
+    `delete_emits_payloadValid`) -/
+def AroundPayload (S : Schema) (doc : Node) (st : Step) : Prop :=
+  ∀ F T G1 G2 sl' ins b, st = .replaceAround F T G1 G2 sl' ins b → C01.PayloadValid S doc st
+
+/-- payload validity of the emitted step from the validity of its slice, up to `AroundPayload` -/
+theorem fit_payloadValid_of (S : Schema) (doc : Node) (st : Step) (hpa : AroundPayload S doc st)
+    (hp : ∃ sl', st.sliceOf = some sl' ∧ openValid S sl'.openStart sl'.openEnd sl'.content = true) :
+    C01.PayloadValid S doc st := by
+  obtain ⟨sl', hs, hval⟩ := hp
+  cases st with
+  | replace F T sl b =>
+    simp only [Step.sliceOf, Option.some.injEq] at hs
+    subst hs
+    exact hval
+  | replaceAround F T G1 G2 sl ins b => exact hpa _ _ _ _ _ _ _ rfl
+  | addMark _ _ _ => simp [Step.sliceOf] at hs
+  | removeMark _ _ _ => simp [Step.sliceOf] at hs
+  | attr _ _ _ => simp [Step.sliceOf] at hs
+  | docAttr _ _ => simp [Step.sliceOf] at hs
+  | addNodeMark _ _ => simp [Step.sliceOf] at hs
+  | removeNodeMark _ _ => simp [Step.sliceOf] at hs
+
+/-- every step emitted for a **closed slice of valid leaf / text nodes** is `EmitOK` (a replace-around answer: up to
+    `AroundPayload`; its `StepWF` and "no text behind the gap" are proved: `insertInline_emits_wf`,
+    `replaceStep_inline_tail`, Proofs/FitTail.lean) -/
+theorem insertInline_emitOK_partial (S : Schema) (hdet : detB S = true) (hfill : S.fillersOKB = true)
+    (hwrap : S.wrapOKB = true) (hlab : S.labelsOKB = true) (hleaf : PM.FromDom.leafOkB S = true)
+    (hts : textStableC S = true) (hcl : S.closableB = true) (doc : Node) (f t : Nat) (sl : Slice)
+    (hsl : sl.inlineLeaves S = true) (hslv : sl.closedValid S = true) (hv : C01.Valid S doc)
+    (hattrs : S.nodeAttrsOK doc = true) (hft : f ≤ t) (st : Step) (h : replaceStep S doc f t sl = .ok (some st))
+    (hpa : AroundPayload S doc st) : EmitOK S doc st := by
+  have hwf := (insertInline_emits_wf S hdet hfill hwrap doc f t sl hsl hv hattrs hft st h).1
+  refine ⟨fit_payloadValid_of S doc st hpa
+    (insertInline_emits_valid_payload S hdet hfill hwrap hlab hleaf hts hcl doc f t sl hsl hslv hv hattrs st h),
+    hwf, ?_⟩
+  intro F T G1 G2 sl' ins b hst
+  subst hst
+  exact replaceStep_inline_tail S (detS_of_detB S hdet) (fillersOK_of_B S hfill) (wrapOK_of_B S hwrap) doc f t sl hsl hv
+    F T G1 G2 sl' ins b h
+
+/-- every step emitted for an **`openValid` well-formed slice** is `EmitOK` when the loop of `fit` ends with its
+    invariants (`fitEndInv ≠ some false`: in step and `validB`; `none` = the Fitter is not reached) — a replace-around
+    answer up to `AroundPayload`; `StepWF` (`fit_emits_wf_of_inStep`) and "no text behind the gap"
+    (`replaceStep_tail_of_inStep`) follow from the in-step half of the invariant -/
+theorem fit_emitOK_of_inv_partial (S : Schema) (hdet : detB S = true) (hfill : S.fillersOKB = true)
+    (hleaf : PM.FromDom.leafOkB S = true) (hts : textStableC S = true) (hcl : S.closableB = true)
+    (doc : Node) (f t : Nat) (sl : Slice) (hwf : sl.wf = true)
+    (hslv : openValid S sl.openStart sl.openEnd sl.content = true)
+    (hattrs : S.nodeAttrsOK doc = true) (st : Step) (h : replaceStep S doc f t sl = .ok (some st))
+    (hend : fitEndInv S doc f t sl ≠ some false) (hpa : AroundPayload S doc st) : EmitOK S doc st := by
+  have hpl := fit_emits_valid_payload_of_inv S hdet hfill hleaf hts hcl doc f t sl hslv hattrs st h hend
+  have hi := inStep_of_endInv S doc f t sl st h hend
+  by_cases htriv : st = .replace f t sl false
+  · subst htriv
+    exact ⟨hslv, hwf, by intro F T G1 G2 sl' ins b hst; cases hst⟩
+  · have hin : ∀ rf st0 st1, doc.resolve f = some rf → fitInit S rf sl = .ok st0 →
+        fitLoop S (fitFuel S sl) st0 = .ok st1 → st1.inStepB = true := by
+      intro rf st0 st1 h1 h2 h3
+      rcases hi rf st0 st1 h1 h2 h3 with e | e
+      · exact absurd e htriv
+      · exact e
+    have hswf := replaceStep_wf_of_inStep S (detS_of_detB S hdet) (fillersOK_of_B S hfill) doc f t sl hattrs hwf st h hin
+    refine ⟨fit_payloadValid_of S doc st hpa hpl, hswf, ?_⟩
+    intro F T G1 G2 sl' ins b hst
+    subst hst
+    exact replaceStep_tail_of_inStep S doc f t sl F T G1 G2 sl' ins b h hin
+
+/-- a closed slice is well-formed -/
+theorem wf_of_inlineLeaves (S : Schema) (sl : Slice) (hsl : sl.inlineLeaves S = true) : sl.wf = true := by
+  simp only [Slice.inlineLeaves, Bool.and_eq_true, beq_iff_eq] at hsl
+  simp [Slice.wf, hsl.1.1, hsl.1.2]
+
+/-- **`insertInline_valid_partial`** — `insert` / `replace_with` / typing: `replace(f, t, slice)` with a closed slice of
+    valid leaf / text nodes on a valid document.  Whenever the emitted step applies, the returned document is valid,
+    all text and leaf nodes before `f` and after `t` are still present, in order and unmodified, and the text between
+    them is an in-order subsequence of the slice's text (`Kept`).  **Unconditional when the answer is a
+    `ReplaceStep`**; for a `ReplaceAroundStep` answer one hypothesis about the step is left (`AroundPayload`).
+    FULL STATEMENT (`insertInline_valid`): the same without `hpa`.  Missing: `Slice.insert_at(insert, gap)` keeps
+    `openValid` at `insert > 0` — Proofs/InsertAtValid.lean proves it for closed slices (`insertAt_closed_openValid`,
+    under `FromDom.TextStable`, slice and gap in normal form); the emitted slice is open at the start
+    (`open_start = depth(from)`), and its normal form (`fnorm`) is not proved for the Fitter (the same residual as in
+    C04's `DeleteResidual`). -/
+theorem insertInline_valid_partial (S : Schema) (hdet : detB S = true) (hfill : S.fillersOKB = true)
+    (hwrap : S.wrapOKB = true) (hlab : S.labelsOKB = true) (hleaf : PM.FromDom.leafOkB S = true)
+    (hts : textStableC S = true) (hcl : S.closableB = true) (doc doc' : Node) (f t : Nat) (sl : Slice)
+    (hsl : sl.inlineLeaves S = true) (hslv : sl.closedValid S = true) (hv : C01.Valid S doc)
+    (hattrs : S.nodeAttrsOK doc = true) (hft : f ≤ t) (st : Step) (h : replaceStep S doc f t sl = .ok (some st))
+    (hpa : AroundPayload S doc st) (ha : S.apply st doc = .ok doc') :
+    C01.Valid S doc' ∧ Kept (ftoks doc.kids) (ftoks doc'.kids) f t (textUnits (sliceToks' sl)) :=
+  replace_valid_of_emitOK S doc doc' f t sl hv hft (wf_of_inlineLeaves S sl hsl) st h
+    (insertInline_emitOK_partial S hdet hfill hwrap hlab hleaf hts hcl doc f t sl hsl hslv hv hattrs hft st h hpa) ha
+
+/-- **`insertInline_total_valid_partial`** — with `insertInline_total`: the operation does not raise inside
+    `replace_step`; it records nothing, or a step whose `apply` (given `AroundPayload`, vacuous for a `ReplaceStep`)
+    ends in a valid document with the content kept or in a `ReplaceError`-class refusal, never in an internal error -/
+theorem insertInline_total_valid_partial (S : Schema) (hdet : detB S = true) (hfill : S.fillersOKB = true)
+    (hwrap : S.wrapOKB = true) (hlab : S.labelsOKB = true) (hleaf : PM.FromDom.leafOkB S = true)
+    (hts : textStableC S = true) (hcl : S.closableB = true) (doc : Node) (f t : Nat) (sl : Slice)
+    (hsl : sl.inlineLeaves S = true) (hslv : sl.closedValid S = true) (hv : C01.Valid S doc) (hdoc : C01.IsElem doc)
+    (hattrs : S.nodeAttrsOK doc = true) (htop : S.isTextblockO (S.tyOf doc) = false) (hft : f ≤ t)
+    (ht : t ≤ fsize doc.kids) :
+    replaceStep S doc f t sl = .ok none ∨
+    ∃ st, replaceStep S doc f t sl = .ok (some st) ∧
+      (AroundPayload S doc st →
+       S.apply st doc = .error .failed ∨ S.apply st doc = .error .valueError ∨
+       ∃ doc', S.apply st doc = .ok doc' ∧ C01.Valid S doc' ∧
+         Kept (ftoks doc.kids) (ftoks doc'.kids) f t (textUnits (sliceToks' sl))) := by
+  obtain ⟨r, hr⟩ := insertInline_total S hdet hfill hwrap doc f t sl hsl hv hattrs htop hft ht
+  cases r with
+  | none => exact .inl hr
+  | some st =>
+    refine .inr ⟨st, hr, fun hpa => ?_⟩
+    have he := insertInline_emitOK_partial S hdet hfill hwrap hlab hleaf hts hcl doc f t sl hsl hslv hv hattrs hft st hr hpa
+    rcases C01.apply_valid_or_rejected S st doc hv hdoc he.1 he.2.1 with h1 | h1 | ⟨doc', h1, _⟩
+    · exact .inl h1
+    · exact .inr (.inl h1)
+    · exact .inr (.inr ⟨doc', h1,
+        replace_valid_of_emitOK S doc doc' f t sl hv hft (wf_of_inlineLeaves S sl hsl) st hr he h1⟩)
+
+/-- **`replace_valid_of_inv_partial`** — any `replace(f, t, slice)` with a well-formed slice that is a valid payload
+    (`openValid`: every slice cut from a valid document, `C01.slice_payload_valid`), under the decidable run hypothesis
+    `fitEndInv S doc f t slice ≠ some false` (the loop of `fit` ends in step and with `validB`; evaluated by the driver
+    on every generated request, never false so far): whenever the emitted step applies, the returned document is valid
+    and keeps the content around `[f, t)` with text of the slice, in order, between.  Unconditional for a
+    `ReplaceStep` answer; `AroundPayload` left for a `ReplaceAroundStep` answer (see `insertInline_valid_partial`). -/
+theorem replace_valid_of_inv_partial (S : Schema) (hdet : detB S = true) (hfill : S.fillersOKB = true)
+    (hleaf : PM.FromDom.leafOkB S = true) (hts : textStableC S = true) (hcl : S.closableB = true)
+    (doc doc' : Node) (f t : Nat) (sl : Slice) (hwf : sl.wf = true)
+    (hslv : openValid S sl.openStart sl.openEnd sl.content = true) (hv : C01.Valid S doc)
+    (hattrs : S.nodeAttrsOK doc = true) (hft : f ≤ t) (st : Step) (h : replaceStep S doc f t sl = .ok (some st))
+    (hend : fitEndInv S doc f t sl ≠ some false) (hpa : AroundPayload S doc st) (ha : S.apply st doc = .ok doc') :
+    C01.Valid S doc' ∧ Kept (ftoks doc.kids) (ftoks doc'.kids) f t (textUnits (sliceToks' sl)) :=
+  replace_valid_of_emitOK S doc doc' f t sl hv hft hwf st h
+    (fit_emitOK_of_inv_partial S hdet hfill hleaf hts hcl doc f t sl hwf hslv hattrs st h hend hpa) ha
+
+/-- **`replaceRange_valid_inline_partial`** — `replace_range(f, t, slice)`: for every request `c` of its plan whose
+    slice is a closed slice of valid leaf / text nodes (on the direct and the fallback path the slice itself), whatever
+    step is emitted for it, if it applies the document is valid and keeps the content around the range `replace_range`
+    was given -/
+theorem replaceRange_valid_inline_partial (S : Schema) (hdet : detB S = true) (hfill : S.fillersOKB = true)
+    (hwrap : S.wrapOKB = true) (hlab : S.labelsOKB = true) (hleaf : PM.FromDom.leafOkB S = true)
+    (hts : textStableC S = true) (hcl : S.closableB = true) (doc doc' : Node) (f t : Nat) (sl : Slice)
+    (cs : List (Nat × Nat × Slice)) (hv : C01.Valid S doc) (hattrs : S.nodeAttrsOK doc = true) (hft : f ≤ t)
+    (hwf : sl.wf = true) (h : replaceRangeCalls S doc f t sl = some cs) (c : Nat × Nat × Slice) (hc : c ∈ cs)
+    (hsl : c.2.2.inlineLeaves S = true) (hslv : c.2.2.closedValid S = true) (st : Step)
+    (hst : replaceStep S doc c.1 c.2.1 c.2.2 = .ok (some st)) (hpa : AroundPayload S doc st)
+    (ha : S.apply st doc = .ok doc') :
+    C01.Valid S doc' ∧ Kept (ftoks doc.kids) (ftoks doc'.kids) f t (textUnits (sliceToks' sl)) := by
+  obtain ⟨h1, h2, _⟩ := replaceRange_extends_structurally S doc f t sl cs h c hc
+  exact replaceRange_valid_of_emitOK S doc doc' f t sl cs hv hft hwf h c hc st hst
+    (insertInline_emitOK_partial S hdet hfill hwrap hlab hleaf hts hcl doc c.1 c.2.1 c.2.2 hsl hslv hv hattrs (by omega)
+      st hst hpa) ha
+
+/-- **`replaceRange_valid_of_inv_partial`** — the same for any request of the plan whose slice is a well-formed valid
+    payload, under `fitEndInv ≠ some false` for that request -/
+theorem replaceRange_valid_of_inv_partial (S : Schema) (hdet : detB S = true) (hfill : S.fillersOKB = true)
+    (hleaf : PM.FromDom.leafOkB S = true) (hts : textStableC S = true) (hcl : S.closableB = true)
+    (doc doc' : Node) (f t : Nat) (sl : Slice) (cs : List (Nat × Nat × Slice)) (hv : C01.Valid S doc)
+    (hattrs : S.nodeAttrsOK doc = true) (hft : f ≤ t) (hwf : sl.wf = true)
+    (h : replaceRangeCalls S doc f t sl = some cs) (c : Nat × Nat × Slice) (hc : c ∈ cs)
+    (hcwf : c.2.2.wf = true) (hslv : openValid S c.2.2.openStart c.2.2.openEnd c.2.2.content = true) (st : Step)
+    (hst : replaceStep S doc c.1 c.2.1 c.2.2 = .ok (some st))
+    (hend : fitEndInv S doc c.1 c.2.1 c.2.2 ≠ some false) (hpa : AroundPayload S doc st)
+    (ha : S.apply st doc = .ok doc') :
+    C01.Valid S doc' ∧ Kept (ftoks doc.kids) (ftoks doc'.kids) f t (textUnits (sliceToks' sl)) :=
+  replaceRange_valid_of_emitOK S doc doc' f t sl cs hv hft hwf h c hc st hst
+    (fit_emitOK_of_inv_partial S hdet hfill hleaf hts hcl doc c.1 c.2.1 c.2.2 hcwf hslv hattrs st hst hend hpa) ha
+
+/-- **`replaceRangeWith_valid_of_inv_partial`** — `replace_range_with(f, t, node)` (`hgap` as in
+    `replaceRangeWith_respects`: only needed for a replace-around answer after the target was moved to an insertion
+    point) -/
+theorem replaceRangeWith_valid_of_inv_partial (S : Schema) (hdet : detB S = true) (hfill : S.fillersOKB = true)
+    (hleaf : PM.FromDom.leafOkB S = true) (hts : textStableC S = true) (hcl : S.closableB = true)
+    (doc doc' : Node) (f t : Nat) (node : Node) (cs : List (Nat × Nat × Slice)) (hv : C01.Valid S doc)
+    (hattrs : S.nodeAttrsOK doc = true) (hft : f ≤ t)
+    (h : replaceRangeWithCalls S doc f t node = some cs) (c : Nat × Nat × Slice) (hc : c ∈ cs)
+    (hcwf : c.2.2.wf = true) (hslv : openValid S c.2.2.openStart c.2.2.openEnd c.2.2.content = true) (st : Step)
+    (hst : replaceStep S doc c.1 c.2.1 c.2.2 = .ok (some st))
+    (hend : fitEndInv S doc c.1 c.2.1 c.2.2 ≠ some false) (hpa : AroundPayload S doc st)
+    (hgap : ∀ F T G1 G2 sl' ins b, st = .replaceAround F T G1 G2 sl' ins b → t ≤ G1)
+    (ha : S.apply st doc = .ok doc') :
+    C01.Valid S doc' ∧ Kept (ftoks doc.kids) (ftoks doc'.kids) f t (textUnits (sliceToks' ⟨[node], 0, 0⟩)) :=
+  replaceRangeWith_valid_of_emitOK S doc doc' f t node cs hv hft h c hc st hst
+    (fit_emitOK_of_inv_partial S hdet hfill hleaf hts hcl doc c.1 c.2.1 c.2.2 hcwf hslv hattrs st hst hend hpa) hgap ha
+
+/-- **`replaceRangeWith_valid_inline_partial`** — `replace_range_with(f, t, node)` for an inline leaf / text node (the
+    target is not moved: `replace_range_with` is `replace_range(f, t, <node>)`) -/
+theorem replaceRangeWith_valid_inline_partial (S : Schema) (hdet : detB S = true) (hfill : S.fillersOKB = true)
+    (hwrap : S.wrapOKB = true) (hlab : S.labelsOKB = true) (hleaf : PM.FromDom.leafOkB S = true)
+    (hts : textStableC S = true) (hcl : S.closableB = true) (doc doc' : Node) (f t : Nat) (node : Node)
+    (hinl : (S.nodeType (S.tyOf node)).isInline = true)
+    (cs : List (Nat × Nat × Slice)) (hv : C01.Valid S doc) (hattrs : S.nodeAttrsOK doc = true) (hft : f ≤ t)
+    (h : replaceRangeWithCalls S doc f t node = some cs) (c : Nat × Nat × Slice) (hc : c ∈ cs)
+    (hsl : c.2.2.inlineLeaves S = true) (hslv : c.2.2.closedValid S = true) (st : Step)
+    (hst : replaceStep S doc c.1 c.2.1 c.2.2 = .ok (some st)) (hpa : AroundPayload S doc st)
+    (ha : S.apply st doc = .ok doc') :
+    C01.Valid S doc' ∧ Kept (ftoks doc.kids) (ftoks doc'.kids) f t (textUnits (sliceToks' ⟨[node], 0, 0⟩)) := by
+  have hcs : replaceRangeCalls S doc f t ⟨[node], 0, 0⟩ = some cs := by
+    unfold replaceRangeWithCalls replaceRangeWithPlan replaceRangeWithTarget at h
+    simp only [hinl, Bool.not_true, Bool.false_and, Bool.false_eq_true, if_false] at h
+    exact h
+  exact replaceRange_valid_inline_partial S hdet hfill hwrap hlab hleaf hts hcl doc doc' f t ⟨[node], 0, 0⟩ cs hv hattrs
+    hft (by simp [Slice.wf]) hcs c hc hsl hslv st hst hpa ha
 
 end PM.C11
